@@ -22,7 +22,8 @@ ASSUMPTIONS = [
 COMPONENTS = {"real": ["amaranth.hdl._ast.Format / Print / Assert / Assume (validation)", "amaranth.sim._pyrtl.emit_format / on_Print / "
                        "on_Property", "amaranth.sim._pyeval.value_to_string", "amaranth.hdl._dsl control flow", "amaranth.sim.pysim"],
               "stub": ["PermSet scheduler seam", "clock/reset driver", "reference interpreter + str.format"]}
-EXPECTED_PROBES = ("sched", "coincide", "inactive", "srst", "arst", "printed", "assert_fired", "silent_steps", "two_processes_printed",
+EXPECTED_PROBES = ("sched", "coincide", "inactive", "srst", "arst", "restart", "restart_after_assertion", "printed", "assert_fired",
+                   "silent_steps", "two_processes_printed",
                    "spec_c", "spec_s", "signed_value_printed", "invalid_specs_rejected")
 OPTS = {"max_domains": 2, "max_modules": 3, "wrappers": False, "prints": True, "asserts": True, "fsm": True, "max_stmts": 5, "depth": 1}
 INVALID_SPECS = ["^5", "<^3", ",", "5,d", "n", ".3", "5.2d", "f", "e", "%", "q", "+s", "#c", "05s", "=4c", "_s", "00d", "+-d"]
@@ -47,7 +48,7 @@ def gen_case(seed, tier):
     n = cfg.randint(8, 50) if tier == "quick" else cfg.randint(8, 160)
     steps = progdrv.gen_steps(prog, wl, fl, n, p_reset=fl.choice([0.0, 0.1, 0.2]), p_coincide=fl.choice([0.0, 0.4, 0.8]))
     return {"prog": prog, "sched": {"mode": sc.choice(["seeded", "seeded", "reverse", "insertion"]), "seed": sc.randrange(1 << 32)},
-            "steps": steps}
+            "steps": steps, "restart": fl.random() < 0.5}
 
 
 def _concat_match(text, blocks):
@@ -159,6 +160,25 @@ def run_case(case):
             pr.execute(hook=hook, on_exception=on_exception)
         except Stop:
             stats["decisions"] = pr.run.decisions
+        except AssertionError as e:
+            # an Assert/Assume fired outside any harness step (e.g. while the simulation was being set up)
+            raise Violation("assert_raised_unexpectedly", -1, {"message": str(e)[:300], "when": "outside a step"})
+        if case.get("restart"):
+            # crash / restart: Simulator.reset() on the same simulator (possibly right after an AssertionError escaped from
+            # the middle of a delta cycle), then the same steps again: same text at the same steps, same stopping point
+            first = pr.dig.hexdigest()
+            pr.dig = Digest()
+            stats["faults"]["restart"] = stats["faults"].get("restart", 0) + 1
+            if P["assert_fired"]:
+                P["restart_after_assertion"] = P.get("restart_after_assertion", 0) + 1
+            try:
+                pr.execute(hook=hook, on_exception=on_exception, rerun=True)
+            except Stop:
+                pass
+            except AssertionError as e:
+                raise Violation("assert_raised_unexpectedly", -1, {"message": str(e)[:300], "when": "after Simulator.reset()"})
+            if pr.dig.hexdigest() != first:
+                raise Violation("trace_differs_after_reset", -1, {})
 
     def count_specs(prog):
         import json
